@@ -321,7 +321,11 @@ pub fn run_plan<T: HCfg>(plan: &Value, detail: u8, emit: &mut dyn FnMut(&Value))
                 forge_n += 1;
                 steps.push(st);
             }
-            if p_misuse > 0.0 && !w.peers[p].is_spec && rng.gen::<f64>() < p_misuse {
+            if p_misuse > 0.0
+                && !w.peers[p].is_spec
+                && !matches!(w.peers[p].sess, crate::world::Sess::Sync(_))
+                && rng.gen::<f64>() < p_misuse
+            {
                 let locals = w.peers[p].locals.clone();
                 let nonlocal: Vec<usize> = (0..nplayers + 2).filter(|h| !locals.contains(h)).collect();
                 let inv = json!(["E:InvalidRequest"]);
@@ -366,6 +370,20 @@ pub fn run_plan<T: HCfg>(plan: &Value, detail: u8, emit: &mut dyn FnMut(&Value))
                 }
                 if p_poll > 0.0 && rng.gen::<f64>() < p_poll {
                     steps.push(json!({"a":"poll","p":p}));
+                }
+                let is_sync = matches!(w.peers[p].sess, crate::world::Sess::Sync(_));
+                if is_sync && p_misuse > 0.0 && rng.gen::<f64>() < p_misuse {
+                    // SyncTestSession misuse: an unknown handle, or advance_frame with one input missing
+                    let np = w.peers[p].locals.len();
+                    match rng.gen_range(0..3) {
+                        0 => steps.push(json!({"a":"addonly","p":p,"in":[[np + rng.gen_range(0..3), 1]],
+                                               "expect_add":["E:InvalidRequest"]})),
+                        1 => {
+                            let part: Vec<Value> = ins.iter().skip(1).cloned().collect();
+                            steps.push(json!({"a":"tick","p":p,"in":part}));
+                        }
+                        _ => steps.push(json!({"a":"tick","p":p,"in":[]})),
+                    }
                 }
                 if wait_ms > 0 {
                     // advance_frame_with_wait_timeout: the packets due at this peer within the wait
